@@ -39,5 +39,7 @@ PROPERTY C08_FF
 PROPERTY C08_Foreign
 PROPERTY C12_Held
 PROPERTY C20_EntryFate
+PROPERTY C06_Gate
+PROPERTY C04_Gate
 PROPERTY C20_DestDel
 CHECK_DEADLOCK FALSE
